@@ -602,7 +602,11 @@ func (s *Server) serveListReposErr(q query.Q, qStr string, r *http.Request) (*Re
 		for _, b := range r.Repository.Branches {
 			var buf bytes.Buffer
 			if err := t.Execute(&buf, b); err != nil {
-				return nil, err
+				// A CommitURLTemplate that fails for one repository must not take
+				// down the listing of all repositories; formatResults treats the
+				// file and fragment templates the same way.
+				log.Printf("commit url template: %v", err)
+				buf.Reset()
 			}
 			repo.Branches = append(repo.Branches,
 				Branch{
